@@ -76,6 +76,14 @@ def sort_names(names, ranks=None):
     # rank None in the list = constructed without a rank argument (the class default)
     scs = [(Scaffold(n) if (ranks and ranks[i] is None) else Scaffold(n, rank=(ranks[i] if ranks else 0))) for i, n in enumerate(names)]
     a = Assembly("a", scaffolds=list(scs))
+    if len({n for n in names}) == len(names) and len(names) % 3 == 0:
+        # the indexed flavour of an assembly sorts like any other (it keeps its scaffolds in a dict)
+        from tola.assembly.indexed_assembly import IndexedAssembly
+
+        ia = IndexedAssembly("i", scaffolds=list(scs))
+        by_ia = ia.scaffolds_sorted_by_name()
+        if [x.name for x in by_ia] != [x.name for x in a.scaffolds_sorted_by_name()]:
+            raise AssertionError(f"indexed assembly sorts differently: {[x.name for x in by_ia]}")
     by_name = a.scaffolds_sorted_by_name()
     a.smart_sort_scaffolds()
     return by_name, a.scaffolds
